@@ -114,6 +114,16 @@ META["C13"] = dict(
     assumptions=COMMON_ASSUME + ["scipy.optimize.nnls returns a non-negative solution", "scipy.linalg.eig / solve return the eigen-decomposition"],
 )
 
+META["C01"] = dict(
+    level="proof",
+    technique="postconditions (the composition laws) on the real Series._impedance / Parallel._impedance, executed by CPython on classified array stand-ins with symbolic generic-point values, enumerating every classification of <=3 branches and every branch kind; structural contracts on Circuit.__init__ and the builder/get_impedances glue; topology enumeration as labelled bounded stand-in",
+    level_text="Proved for all complex branch impedances: for every open/short/finite classification of up to three branches (elements, containers, nested connections) the real code returns the sum (series), 0 for a shorted or empty connection, and the reciprocal of the sum of reciprocals of the non-open branches (parallel); an all-open connection is itself an open branch. Arbitrary nesting follows by induction (a connection's result is classified like a branch). Circuit.__init__ yields a well-formed top-level Series for all four documented argument forms. Width >3, branches that vanish at only some frequencies, construction-route independence and array-vs-scalar evaluation are covered by the bounded layer.",
+    level_note="branch arrays are classified all-open / all-short / finite-non-zero (the code's own assumption); numpy mask operations modelled by a classification-level table; element impedances are C02's subject; real arithmetic",
+    explanation="Obligations: one per classification and law; Circuit.__init__ forms; glue returns. Bounded: every topology up to a bounded number of leaves over a leaf alphabet, four construction routes, array vs scalar.",
+    trusted_base=["contracts/c01.py classification-level model of where/isinf/full/zeros", "pyvc/overload.py"],
+    assumptions=COMMON_ASSUME + ["a branch impedance array is open everywhere, short everywhere, or finite and non-zero everywhere"],
+)
+
 NOT_BUILT = "check not built yet in this session (planned, see DESIGN.md section 3)"
 NOT_APPLICABLE = {
     "C10": "statistical calibration over an RNG distribution and heuristic optimisers: no pre/postcondition within reach of a deductive verifier implies it (DESIGN.md C10); sampling would be a different technique family",
@@ -123,4 +133,4 @@ for _p in ["C%02d" % i for i in range(1, 21)]:
     if _p not in META and _p not in NOT_APPLICABLE:
         NOT_APPLICABLE[_p] = NOT_BUILT
 
-FIX_COMMITS = ["0098309", "82df5c9", "ded46ec", "756923f", "8a458bc", "a72c860", "b452482", "d151f47", "9ae2f3a", "8b96fa1", "fbdaf29", "dfe0838", "b53b7ad"]
+FIX_COMMITS = ["0098309", "82df5c9", "ded46ec", "756923f", "8a458bc", "a72c860", "b452482", "d151f47", "9ae2f3a", "8b96fa1", "fbdaf29", "dfe0838", "b53b7ad", "2609bab", "9c2d0e3"]
